@@ -71,7 +71,8 @@ func verifC07TxData(sig solana.Signature) []byte {
 
 // verifC07Build builds the world. maxEp/maxN bound the shape; every epoch has 0..maxN entries
 // (0 = address absent from that epoch), stored in one record or split into two linked records.
-func verifC07Build(minEp, maxEp, maxN int, allSplits bool) *verifC07World {
+// splitMode: 0 = one record or split in half, 1 = every split point, 2 = always one record.
+func verifC07Build(minEp, maxEp, maxN int, splitMode int) *verifC07World {
 	w := &verifC07World{byOff: map[uint64]*verifC07Tx{}, byTx: map[*ipldbindcode.Transaction]*verifC07Tx{}}
 	verifC07Heads = map[*GsfaReader]*indexes.OffsetAndSize{}
 	K := minEp + verifChoice("epochs", maxEp-minEp+1)
@@ -103,8 +104,8 @@ func verifC07Build(minEp, maxEp, maxN int, allSplits bool) *verifC07World {
 		}
 		// split: the s oldest entries go into a first record, the rest into a second one
 		s := 0
-		if n >= 2 {
-			if allSplits {
+		if n >= 2 && splitMode != 2 {
+			if splitMode == 1 {
 				s = verifChoice("split", n)
 			} else {
 				s = verifChoice("split", 2) * (n / 2)
@@ -172,7 +173,7 @@ func (w *verifC07World) flatten(m EpochToTransactionObjects, label string) []*ve
 // start just after `before` (or at the newest entry), end with `until` inclusive (or at the
 // oldest entry), cut to `limit`; epochs without the address are skipped.
 func VerifC07Iter() {
-	w := verifC07Build(1, verifParam("max_epochs", 3), verifParam("max_entries", 2), verifParam("all_splits", 0) == 1)
+	w := verifC07Build(1, verifParam("max_epochs", 3), verifParam("max_entries", 2), verifParam("all_splits", 0))
 	N := len(w.hist)
 
 	// before: absent, or the signature of history entry b (1..N); only byte 0 is symbolic
@@ -226,7 +227,7 @@ func verifC07Multi(rs []*GsfaReader) *GsfaReaderMultiepoch {
 // C07.single — the single-epoch reader (*GsfaReader).GetBeforeUntil (gsfa-read.go, same paging
 // contract on one epoch's list; it returns locations instead of transactions).
 func VerifC07Single() {
-	w := verifC07Build(1, 1, verifParam("max_entries", 4), true)
+	w := verifC07Build(1, 1, verifParam("max_entries", 4), 1)
 	N := len(w.hist)
 	verifAssume(N >= 1) // an address that is not indexed is reported as an error by this reader
 	var before, until *solana.Signature
